@@ -268,7 +268,7 @@ def _inline_module_constants(tree, count):
     for st in tree.body:
         if isinstance(st, ast.Assign) and len(st.targets) == 1 and isinstance(st.targets[0], ast.Name) and isinstance(st.value, ast.Constant) and isinstance(st.value.value, (str, int)) and not isinstance(st.value.value, bool):
             nm = st.targets[0].id
-            if nm.startswith("_") and nm.upper() == nm and len(nm) > 2:
+            if nm.upper() == nm and len(nm) > 2 and any(ch.isalpha() for ch in nm):
                 cands[nm] = st
     if not cands:
         return
